@@ -1,0 +1,22 @@
+//go:build verif
+
+// Contracts for the acv verifier (/verif). Comment-only file: no executable code.
+
+package network
+
+// The identity taken from a TLS certificate (C02): the client id of a connection is the hex form of the hash of the
+// certificate's identifier, and it is the connection's own value - a new buffer for every conversion - because it is kept for
+// the life of the connection (and put into every request of that connection) while other peers handshake.
+//@ func (c HexIdentifierConverter) Convert(identifier []byte) (out []byte, err error)
+//@   props C02
+//@   at call hash.Hash.Write : assert sameslice(arg[0], identifier)
+//@   at call hex.Encode : assert sameslice(arg[1], ret(hash.Hash.Sum)[0]) && fresh(arg[0])
+//@   ensures own-buffer-for-every-identity: err == nil ==> fresh(out) && sameslice(out, argof(hex.Encode)[0])
+//@   ensures nothing-on-error: err != nil ==> out == nil
+
+//@ func (extractor *tlsClientIDExtractor) ExtractClientID(certificate *x509.Certificate) (id []byte, err error)
+//@   props C02
+//@   noinline *
+//@   at call CertificateIdentifierExtractor.GetCertificateIdentifier : assert recv == extractor.idExtractor && arg[0] == certificate
+//@   at call IdentifierConverter.Convert : assert recv == extractor.idConverter && sameslice(arg[0], ret(CertificateIdentifierExtractor.GetCertificateIdentifier)[0]) && ret(CertificateIdentifierExtractor.GetCertificateIdentifier)[1] == nil
+//@   ensures identity-is-the-converted-identifier: err == nil ==> sameslice(id, ret(IdentifierConverter.Convert)[0]) && ret(IdentifierConverter.Convert)[1] == nil
